@@ -19,7 +19,9 @@ RULE = (
     "dangling parent (removed by cleaning); half of the data sets use "
     "minute-scale times with time_buffer=1 (traces at the edges are removed "
     "by the first cleaning); sync or async; one large data set (~1100 "
-    "spans, batch size 1000) runs two short histories. Quick: ALL 52 "
+    "spans, batch size 1000) runs two short histories; a batch-boundary "
+    "sweep re-ingests each drawn data set under batch sizes 1..9 with two "
+    "span records sent twice. Quick: ALL 52 "
     "histories of length <=2 on one drawn data set per seed; thorough: all "
     "436 of length <=3 on two data sets plus drawn histories of length 4 on "
     "drawn data sets. Oracle (model-based): every run exits 0; every run "
@@ -314,7 +316,9 @@ def data_strategy():
     def build(draw):
         d = draw(c14.strategy())
         d.pop("mapping", None)
-        d["batch"] = draw(st.sampled_from([2, 1000]))
+        d["batch"] = draw(st.sampled_from([2, 3, 5, 1000]))
+        if draw(st.integers(0, 2)) == 0:
+            d["dup_records"] = [draw(st.integers(0, 200)) for _ in range(2)]
         for w in d["workflows"]:
             if draw(st.integers(0, 2)) == 0:
                 tr = [list(x) for x in w["traces"][0]]
@@ -391,6 +395,29 @@ def run_shard(ctx):
             nt, cl = classify(case)
             ctx.record(case, nt, cl + ["enumerated"])
             ctx.count("process_runs", len(h))
+            try:
+                run_history(case)
+            except Violation as v:
+                ctx.violation(case, str(v))
+                return
+    # batch-boundary sweep: the drawn data sets re-ingested under every
+    # batch size 1..9, with two span records sent twice (so that a batch of
+    # the second ingest holds repeats of its own next to stored spans, and
+    # batch ends fall on every position relative to removed/kept traces)
+    for d in datasets:
+        nsp = sum(len(t) for w in d["workflows"] for t in w["traces"])
+        for b in range(1, 10):
+            idx += 1
+            if idx % ctx.nshards != ctx.shard:
+                continue
+            dd = dict(d, batch=b,
+                      dup_records=[(3 * b) % nsp, (7 * b + 1) % nsp])
+            case = {"data": dd,
+                    "history": [[True, False, True], [True, b % 2 == 0, True]]}
+            nt, cl = classify(case)
+            ctx.record(case, nt, cl + ["batch_sweep",
+                                       "span_records_sent_twice"])
+            ctx.count("process_runs", 2)
             try:
                 run_history(case)
             except Violation as v:
